@@ -162,7 +162,7 @@ class Sim:
     self.main_gate.acquire()
     self.last_progress_step = 0
     self.spin_k = spin_k
-    self.quantum = 0.01
+    self.spin_level = 0
     self.jumps = 0
     self.invariants = []
     self.real_timeout = real_timeout
@@ -210,11 +210,15 @@ class Sim:
   def passthrough(self):
     return self.aborting
 
-  def _progress(self):
+  def _progress(self, strong=True):
     self.last_progress_step = self.steps
+    if strong:
+      self.spin_level = 0
 
-  def _fire_next_timer(self):
+  def _fire_next_timer(self, limit=None):
     while self.timers:
+      if limit is not None and self.timers[0][0] > limit:
+        return False
       when, _, t, tseq = heapq.heappop(self.timers)
       if t.state == BLOCKED and t.timer_seq == tseq:
         if when > self.now:
@@ -222,7 +226,10 @@ class Sim:
         t.state = RUNNABLE
         t.wake_reason = 'timeout'
         t.timer_seq += 1
-        self._progress()
+        # A timer firing keeps the spin detector quiet for a while but does
+        # not reset its escalation: threads that wake up only to poll and
+        # sleep again are still "waiting for time to pass".
+        self._progress(strong=False)
         self.log('timer', t.tid, round(self.now, 6))
         return True
     return False
@@ -291,14 +298,20 @@ class Sim:
         if msg:
           self.stop_world(InvariantViolation(msg, self.blocked_summary()))
     if self.steps - self.last_progress_step > self.spin_k:
-      # Runnable threads are only polling: let simulated time pass.
+      # Runnable threads are only polling: let simulated time pass.  The jump
+      # reaches at least the next timer and grows while nothing but polling
+      # happens (10 ms, 20 ms, ... up to 64 s); every timer due on the way
+      # fires.
       self.jumps += 1
       self.last_progress_step = self.steps
-      if self._fire_next_timer():
-        self.quantum = 0.01
-      else:
-        self.now += self.quantum
-        self.quantum = min(self.quantum * 2, 64.0)
+      self.spin_level = min(self.spin_level + 1, 14)
+      target = self.now + min(0.005 * (2 ** self.spin_level), 64.0)
+      if self.timers and self.timers[0][0] > target:
+        target = self.timers[0][0]
+      while self._fire_next_timer(limit=target):
+        pass
+      if target > self.now:
+        self.now = target
     while True:
       cands = [t for t in self.threads if t.state == RUNNABLE]
       if cands:
@@ -353,7 +366,12 @@ class Sim:
     me.state = BLOCKED
     me.why = why
     me.obj = obj
-    self._progress()
+    if not why.startswith('lock'):
+      # Waiting for a lock is not progress: threads that only poll shared
+      # state under a mutex must not keep the virtual clock from moving.
+      # (Going to sleep is weak progress only: it does not reset the growth
+      # of the clock jumps.)
+      self._progress(strong=False)
     me.wake_reason = None
     me.timer_seq += 1
     if timeout is not None:
@@ -367,12 +385,13 @@ class Sim:
     me.obj = None
     return me.wake_reason
 
-  def wake(self, t, reason='notify'):
+  def wake(self, t, reason='notify', progress=True):
     if t.state == BLOCKED:
       t.state = RUNNABLE
       t.wake_reason = reason
       t.timer_seq += 1
-      self._progress()
+      if progress:
+        self._progress()
       self.log('w', t.tid, reason)
 
   def wait_steps(self, n):
@@ -594,6 +613,7 @@ class SimLock:
   def __init__(self):
     self._locked = False
     self._waiters = []
+    self._holder = None
     # The very first acquire of a lock created inside a run is not a
     # scheduling point (nobody else can know the lock yet).  Locks created
     # outside a run live across runs and always yield, so that a run behaves
@@ -627,12 +647,13 @@ class SimLock:
       s.yield_point('acq')
     else:
       self._used = True
+    me = s.cur
     if not self._locked:
       self._locked = True
+      self._holder = me
       return True
     if not blocking:
       return False
-    me = s.cur
     deadline = None
     if timeout is not None and timeout >= 0:
       deadline = s.now + timeout
@@ -650,6 +671,7 @@ class SimLock:
       if r == 'timeout' and self._locked:
         return False
     self._locked = True
+    self._holder = me
     return True
 
   def release(self):
@@ -659,13 +681,18 @@ class SimLock:
         return
       raise RuntimeError('release unlocked lock')
     self._locked = False
+    holder, self._holder = self._holder, None
     if s is None or s.aborting:
       return
     if self._waiters:
       # Unfair hand-off, as in CPython: all waiters become runnable and
       # compete with everybody else; losers go back to sleep.
+      # A release by the thread that acquired the lock is mutual exclusion;
+      # a release by another thread is a signal (Condition.notify, Event.set,
+      # Semaphore.release are built that way) and counts as progress.
+      signal = holder is not s.cur
       for w in self._waiters:
-        s.wake(w, 'lock')
+        s.wake(w, 'lock', progress=signal)
     s.yield_point('rel')
 
   def locked(self):
